@@ -224,6 +224,8 @@ def make_contractions(basis_dict, atoms, coords, coord_types):
                 f"got {coord_types}"
             )
         coord_types = [coord_types] * num_coord_types
+    # NOTE: copy, so that the caller's list/tuple is not consumed below
+    coord_types = list(coord_types)
 
     if len(coord_types) != num_coord_types:
         raise ValueError(
